@@ -27,7 +27,7 @@ INFO = {
     'C15': ('Model/Edit; Proofs/EditInv', 'Props/C15', 'links, liveness, deliveries after every edit'),
     'C16': ('Model/Graph (err/carried); Proofs/Failure', 'Props/C16', 'failing functions/sinks/consumers; fresh-node metamorphic oracle; threaded sample'),
     'C17': ('Model/TextFile', 'Props/C17', 'real files, random chunking and polls'),
-    'C18': ('Model/Source', 'Props/C18', 'start/stop at every suspension point'),
+    'C18': ('Model/Source; Model/SourceFuture', 'Props/C18; Props/SourceFuture', 'start/stop at every suspension point; Future-returning run() atom by atom'),
     'C19': ('Model/LoopCfg', 'Props/C19', 'complete enumeration of small configurations'),
     'C20': ('Model/Dask, Model/DaskFail', 'Props/C20, Props/C20Fail', 'in-process dask cluster vs local pipeline (also with failing tasks / rejecting consumers)'),
 }
